@@ -202,6 +202,9 @@ class Check:
                 st['D'] = d
         if fault is not None:
             st['fault'] = fault
+        longs = [k for k in (st.get('D') or {}) if k in P.LONG_FORM and rng.random() < 0.35]
+        if longs:
+            st['long'] = longs      # e.g. --buildtype=release instead of -Dbuildtype=release
         return st
 
     @staticmethod
@@ -261,7 +264,7 @@ class Check:
             E.rmscratch(root)
 
     def argv_for(self, st: T.Dict[str, T.Any], bd: str, sd: str) -> T.List[str]:
-        d = P.d_args(st.get('D') or {})
+        d = P.d_args(st.get('D') or {}, st.get('long') or [])
         if st['op'] == 'setup':
             return ['setup', '--backend=none', bd, sd] + d
         if st['op'] == 'reconfigure':
@@ -459,6 +462,10 @@ class Check:
                 f = c['steps'][i].pop('fault')
                 if f['kind'] in ('bad-value', 'unknown-option'):
                     continue
+                yield c
+            if st.get('long'):
+                c = copy.deepcopy(sc)
+                c['steps'][i].pop('long')
                 yield c
             for k in list((st.get('D') or {}).keys()):
                 if st['op'] == 'configure' and len(st.get('D') or {}) + len(st.get('U') or []) <= 1:
